@@ -123,6 +123,12 @@ def run_step(inst):
     shims.install()
     iname = f"step {name} {cfg.describe()} chain_length={length}"
 
+    def prev_entry(mt, mp, pv, length):
+        if pv is None:
+            return None
+        em = Segment(pv[0], mp.loc[pv[0]], pv[1], mp.loc[pv[1]], mp.loc[pv[0]], 0.0) if isinstance(pv, tuple) else Segment(pv, mp.loc[pv])
+        return {mt.matching(mt, em, Segment("Oprev", P("oprev")), logprob=0.0, logprobe=0.0, logprobne=0, obs=-1, length=max(length - 1, 1), dist_obs=0.0)}
+
     def scenario():
         eng = E.get_engine()
         mp = AbsMap(g)
@@ -131,7 +137,7 @@ def run_step(inst):
         mt.path = path
         mt.lattice = {0: LatticeColumn(0), 1: LatticeColumn(1)}
         orc = Oracle(mp, mt, cfg)
-        pre = {}
+        pre, prevs = {}, {}
         for st in orc.states():
             tag = orc.label(st)
             if not eng.decide(z3.Bool(f"present_{tag}")):
@@ -146,12 +152,20 @@ def run_step(inst):
             else:
                 em = Segment(st, mp.loc[st])
                 dist = mp.distance(path[0], mp.loc[st])
+            # an arbitrary own predecessor (the documented transition model is first order, so it must not matter): none, or
+            # any state s with s -> st and st -> s (incl. st itself), chosen by the engine
+            pv = None
+            for s_ in orc.states():
+                if st in orc.succ(s_) and s_ in orc.succ(st) and eng.decide(z3.Bool(f"prev_of_{tag}_is_{orc.label(s_)}")):
+                    pv = s_
+                    break
+            prevs[st] = pv
             m = mt.matching(mt, em, Segment("O0", path[0]), logprob=E.Sym(lp), logprobe=E.Sym(lp), logprobne=0, obs=0,
-                            length=length, dist_obs=dist)
+                            length=length, dist_obs=dist, prev=prev_entry(mt, mp, pv, length))
             mt.lattice[0].upsert(m)
             pre[st] = lp
         mt._match_states(1)
-        return dict(mp=mp, mt=mt, pre=pre, orc=orc)
+        return dict(mp=mp, mt=mt, pre=pre, orc=orc, prevs=prevs)
 
     def claims(eng, v):
         mt, pre, orc = v['mt'], v['pre'], v['orc']
@@ -212,7 +226,8 @@ def run_step(inst):
                     dist = table.get('d:' + k)
                 else:
                     em, dist = Segment(st, mp.loc[st]), mp.distance(path[0], mp.loc[st])
-                mt.lattice[0].upsert(mt.matching(mt, em, Segment("O0", path[0]), logprob=lp, logprobe=lp, logprobne=0, obs=0, length=length, dist_obs=dist))
+                mt.lattice[0].upsert(mt.matching(mt, em, Segment("O0", path[0]), logprob=lp, logprobe=lp, logprobne=0, obs=0, length=length, dist_obs=dist,
+                                                   prev=prev_entry(mt, mp, v['prevs'].get(st), length)))
             try:
                 mt._match_states(1)
             except Exception as e:
@@ -238,7 +253,7 @@ def run_step(inst):
                 if best is not None and key in col and col[key].logprob < best - 1e-7:
                     bad.append(f"state {st}: entry {col[key].logprob} < best admissible candidate {best}")
             if bad:
-                return dict(desc='; '.join(bad[:3]), kind='step', graph=g, cfg=kw, pre={str(k): x for k, x in pre.items()}, thresholds=thr,
+                return dict(desc='; '.join(bad[:3]) + f" (own predecessors of the column entries: { {str(k): str(x) for k, x in v['prevs'].items()} })", kind='step', graph=g, cfg=kw, pre={str(k): x for k, x in pre.items()}, thresholds=thr,
                             table=dict(table.accessed))
         return None
 
